@@ -1,6 +1,11 @@
 ----------------------------- MODULE BunchingGen -----------------------------
-(* C19: TLC writes the bounded input universe for the real Batch._create_bunches. *)
+(* C19: TLC writes the bounded input universe for the real Batch._create_bunches.
+   The harness lists the universes, one JSON record [maxlen, maxsize, maxbytes, maxcount] per line.   *)
 EXTENDS Bunching
-ASSUME ndJsonSerialize(IOEnv.BU_INPUTS,
-         SetToSeq(Universe(atoi(IOEnv.BU_MAXLEN), 1..atoi(IOEnv.BU_MAXSIZE), 2..atoi(IOEnv.BU_MAXBYTES), 1..atoi(IOEnv.BU_MAXCOUNT))))
+Params == ndJsonDeserialize(IOEnv.BU_PARAMS)
+U(p) == Universe(p.maxlen, 1..p.maxsize, 2..p.maxbytes, 1..p.maxcount)
+\* concatenation, not UNION: merging large sets of nested records is slow in TLC; the harness drops repeated lines
+RECURSIVE Cat(_)
+Cat(i) == IF i = 0 THEN <<>> ELSE Cat(i - 1) \o SetToSeq(U(Params[i]))
+ASSUME ndJsonSerialize(IOEnv.BU_INPUTS, Cat(Len(Params)))
 =============================================================================
